@@ -166,7 +166,7 @@ for _L in CLASSES + ['scalar']:
                 claim(f'raise:{_L} ** int')(lambda h, L=_L: _mustraise(h, L, '**', 'int'))
             elif _R != 'int':
                 # unrelated pairings: 2D with 3D, rotation with rigid motion, matrices with quaternions/twists, ...
-                claim(f'raise:{_L} {_op} {_R}', tier='quick' if (_n % 3 == 0 or _op == '*') else 'thorough')(
+                claim(f'raise:{_L} {_op} {_R}', tier='quick')(
                     lambda h, L=_L, op=_op, R=_R: _mustraise(h, L, op, R))
                 _n += 1
 
